@@ -33,7 +33,7 @@ fn state_num(s: ResourceState) -> u8 { match s { ResourceState::Boot => 0, Resou
 fn query(c: &ResourceControl<ManualClock>) -> Option<(i64, i64)> {
     let (tx, rx) = channel();
     c.send_command(ResourceCommand::MeshSnapshot { names: vec!["mine".into(), "bad".into()], respond_to: tx }).ok()?;
-    let m = rx.recv_timeout(StdDuration::from_secs(3)).ok()?;
+    let m = rx.recv_timeout(StdDuration::from_secs(20)).ok()?;
     Some((dint(m.get("mine")), dint(m.get("bad"))))
 }
 fn wait_state(c: &ResourceControl<ManualClock>, want: ResourceState, ms: u64) -> bool {
@@ -85,7 +85,7 @@ fn run_case(seed: u64) -> Result<String, String> {
     for c in &ctl { let _ = c.pause(); }
     let mut mine = vec![-1i64; nres]; let mut bad = vec![0i64; nres];
     for (i, c) in ctl.iter().enumerate() {
-        if wait_state(c, ResourceState::Paused, 3000) {
+        if wait_state(c, ResourceState::Paused, 30000) {
             if let Some((m, b)) = query(c) { mine[i] = m; bad[i] = b; }
         }
     }
@@ -98,7 +98,7 @@ fn run_case(seed: u64) -> Result<String, String> {
         let (tx, rx) = channel();
         let c = ctl[i].clone();
         std::thread::spawn(move || { let r = h.join(); let _ = tx.send(r.is_ok()); });
-        joined[i] = rx.recv_timeout(StdDuration::from_secs(5)).unwrap_or(false);
+        joined[i] = rx.recv_timeout(StdDuration::from_secs(30)).unwrap_or(false);
         states[i] = state_num(c.state());
     }
     let x_end = dint(shared.get("x").as_ref());
